@@ -22,7 +22,7 @@ def load_known(prop):
     with open(KF_PATH) as f:
         for line in f:
             line = line.strip()
-            if not line or line.startswith("#"):
+            if not line or line.startswith("#") or line.startswith("fixed:"):
                 continue
             d = json.loads(line)
             if d.get("fixed"):
@@ -99,8 +99,12 @@ class Run:
         for fp, v in self.known_hits.items():
             print("KNOWN-FINDING: property=%s %s [%s] (seen %d times this run)" % (self.prop, v[1], fp, v[0]))
         rc = 0
+        rdir = os.path.join(VERIF, "replays", self.prop)
+        if os.path.isdir(rdir):
+            for fn in os.listdir(rdir):
+                if fn.startswith("w%d_" % self.seed):
+                    os.unlink(os.path.join(rdir, fn))
         if seen:
-            rdir = os.path.join(VERIF, "replays", self.prop)
             os.makedirs(rdir, exist_ok=True)
             for i, (fp, ws) in enumerate(seen.items()):
                 path = os.path.join(rdir, "w%d_%03d.json" % (self.seed, i))
